@@ -245,8 +245,9 @@ ParseCore(B, T, D, s, e) ==
       \* WINDOW name AS ( def )
       win == IF kWin = 0 THEN GOk(NoneG, 0)
              ELSE LET a == cl[kWin] + 1  b == endOf(kWin) IN
-               IF ~(b - a >= 4 /\ T[a].k = "qid" /\ IsWordU(T, a + 1, "AS")) THEN GErr("malformed_window_clause")
-               ELSE IF ~(T[a + 2].k = "lp" /\ MatchParen(T, a + 2) = b - 1) THEN GErr("window_definition_not_parenthesised")
+               IF ~(b - a >= 2 /\ T[a].k = "qid" /\ IsWordU(T, a + 1, "AS")) THEN GErr("malformed_window_clause")
+               ELSE IF Tk(T, a + 2).k # "lp" THEN GErr("window_definition_not_parenthesised")
+               ELSE IF MatchParen(T, a + 2) # b - 1 THEN GErr("malformed_window_clause")
                ELSE LET w == WindowDef(B, T, D, a + 3, b - 1) IN IF ~w.ok THEN w ELSE GOk([name |-> T[a].v, w |-> w.v], 0)
   IN IF outOfOrder THEN GErr("clause_out_of_order:" \o T[cl[CHOOSE k \in 1..(n - 1) : ranks[k + 1] < ranks[k]] + 0].u \o "_before_" \o T[cl[(CHOOSE k \in 1..(n - 1) : ranks[k + 1] < ranks[k]) + 1]].u)
      ELSE IF dup THEN GErr("duplicate_clause")
